@@ -162,6 +162,7 @@ pub fn naga_reference(source: &str, want_diag: bool) -> Value {
         }
         Ok(Ok(module)) => {
             let mut v = json!({"parse": "ok"});
+            v["ir"] = ir_size(&module);
             for (name, caps) in [
                 ("all", naga::valid::Capabilities::all()),
                 ("none", naga::valid::Capabilities::empty()),
@@ -189,6 +190,74 @@ pub fn naga_reference(source: &str, want_diag: bool) -> Value {
             v
         }
     }
+}
+
+fn count_block(b: &naga::Block) -> (u64, u64) {
+    // (statements, blocks) counted recursively
+    let mut st = 0u64;
+    let mut bl = 1u64;
+    for s in b.iter() {
+        st += 1;
+        let mut add = |x: &naga::Block| {
+            let (a, c) = count_block(x);
+            st += a;
+            bl += c;
+        };
+        match s {
+            naga::Statement::Block(x) => add(x),
+            naga::Statement::If { accept, reject, .. } => {
+                add(accept);
+                add(reject);
+            }
+            naga::Statement::Switch { cases, .. } => {
+                for c in cases {
+                    add(&c.body);
+                }
+            }
+            naga::Statement::Loop {
+                body, continuing, ..
+            } => {
+                add(body);
+                add(continuing);
+            }
+            _ => {}
+        }
+    }
+    (st, bl)
+}
+
+/// Size of the naga IR of a module (independent of the generator): the yardstick for C20.
+pub fn ir_size(m: &naga::Module) -> Value {
+    let mut statements = 0u64;
+    let mut blocks = 0u64;
+    let mut expressions = 0u64;
+    let mut each = |f: &naga::Function| {
+        let (a, b) = count_block(&f.body);
+        statements += a;
+        blocks += b;
+        expressions += f.expressions.len() as u64;
+    };
+    for (_, f) in m.functions.iter() {
+        each(f);
+    }
+    for e in &m.entry_points {
+        each(&e.function);
+    }
+    let members: usize = m
+        .types
+        .iter()
+        .map(|(_, t)| match &t.inner {
+            naga::TypeInner::Struct { members, .. } => members.len(),
+            _ => 0,
+        })
+        .sum();
+    json!({
+        "members": members,
+        "functions": m.functions.len(), "entry_points": m.entry_points.len(),
+        "statements": statements, "blocks": blocks, "expressions": expressions,
+        "types": m.types.len(), "globals": m.global_variables.len(),
+        "constants": m.constants.len(), "overrides": m.overrides.len(),
+    })
 }
 
 static SEQ: AtomicU64 = AtomicU64::new(0);
